@@ -977,15 +977,16 @@ def shard_isolation(specs):
     return part
 
 
-def shard_reconf(specs):
-    """the reconfigured-after-construction dimension: rebuild / copy / clientcopy equivalence, identity walk, and
+def shard_reconf(idxs):
+    """(shards carry indices: a Reconf does not survive pickling)  the reconfigured-after-construction dimension: rebuild / copy / clientcopy equivalence, identity walk, and
     compatible() in both directions against every freshly built catalogue spec of the same kind"""
     part = core.Part()
     partners = {}
     for r in reconf_specs():
         for sp in (tuple(r), r.old):
             partners.setdefault(sp[0], {})[sp] = None
-    for spec in specs:
+    allspecs = reconf_specs()
+    for spec in (allspecs[i] for i in idxs):
         for mode in ('rebuild', 'copy', 'clientcopy'):
             equivalence(part, spec, mode)
         check_shared(part, spec)
@@ -1024,7 +1025,7 @@ def run(ctx):
         ctx.pmap(shard_isolation, ishards, name='isolation')
     rspecs = reconf_specs()
     if not only or 'reconfigured' in only:
-        ctx.pmap(shard_reconf, [rspecs[i::32] for i in range(32)], name='reconfigured')
+        ctx.pmap(shard_reconf, [list(range(i, len(rspecs), 32)) for i in range(32)], name='reconfigured')
     ptypes = pair_types(ctx.tier)
     if not only or 'compatible' in only:
         m = min(len(ptypes), 1024)     # one first-type per shard: the cost per first type varies widely
